@@ -20,6 +20,7 @@ func TestMain(m *testing.M) { os.Exit(evid.Main(m)) }
 var ev = evid.For(prop)
 
 func init() {
+	reqcase.ExoticNames = true // resource names may hold non-ASCII parts: still one response each
 	ev.SetRule("cases = (service with 1-3 generated handler sets, 1-4 sequential requests or a concurrent batch of up to 200 requests, each request = type x resource name x method x payload x handler behaviour script of reply/event/timeout/meta/panic/nested-Value actions); responses are counted on each request's private reply subject (timeout pre-responses aside); a request is non-trivial when its script contains a panic, a double reply, no reply, a nested Value, an unmarshalable value or a meta call, or the request is unroutable, has a non-JSON payload, or targets a method that does not exist; distinct = hash of (handler set, subject, payload, script) Further case families: concurrent batches with a hot request shape, trickle runs (one group hovering around one queued element with WithGroup noise; non-trivial always), and backlog/restart cases (in-channel size 1-16, handlers blocked on a gate while more distinct resources wait than the work buffer holds, Shutdown with queued work and restart; non-trivial when the backlog exceeds in-channel size + workers or the case has >1 Serve cycle).")
 	ev.Assume("panic(nil) reaches recover as *runtime.PanicNilError because the harness main module is Go >= 1.21")
 	ev.Assume("absence of a further response is final once the request.done hook fired: handlers are synchronous")
@@ -64,6 +65,11 @@ func check(c *reqcase.Case, rq *reqcase.ReqSpec, ob reqcase.Obs) (string, bool) 
 func TestPropSequential(t *testing.T) {
 	rapid.Check(t, func(t *rapid.T) {
 		c := reqcase.GenCase().Draw(t, "case")
+		if rapid.IntRange(0, 7).Draw(t, "failpub") == 0 {
+			// one publish somewhere in the case is refused by the connection (the first one is
+			// the system.reset of the start)
+			c.FailPub = rapid.IntRange(2, 2+3*len(c.Reqs)).Draw(t, "failpubN")
+		}
 		r := reqcase.Run(&c)
 		if r.StartErr != nil {
 			t.Fatalf("service did not start: %v", r.StartErr)
@@ -72,6 +78,11 @@ func TestPropSequential(t *testing.T) {
 			t.Fatalf("%v\ncase: %s", r.WaitErr, c)
 		}
 		for i := range r.Obs {
+			if r.FailedPub != "" && r.FailedPub == r.Obs[i].Reply {
+				// the response (or a pre-response) of this request is what the connection
+				// refused: whether it counts as answered is the connection's business
+				continue
+			}
 			msg, nt := check(&c, &c.Reqs[i], r.Obs[i])
 			rq := c.Reqs[i]
 			ty, _, _, _ := svc.SplitSubject(rq.Subject)
